@@ -6,10 +6,13 @@
 (* caches ipCache / introCache / svcCache (OrderedDicts, oldest first, one eviction per insertion).     *)
 (* One action per public call, with the branch structure of the code.  Every call that takes a Peer is  *)
 (* made with a FRESH Peer object (key p, one address) - as Community does for every received packet -   *)
-(* except RemovePeer(p, 0), which is given the stored object (as the churn strategies do).  RemovePeer(p, a) *)
-(* with a # 0 is remove_peer called with ANOTHER Peer object of key p that carries the single address a - what  *)
-(* a caller holds that kept the Peer of a received packet - whether or not p is verified (services are recorded *)
-(* for peers that are not verified, too: removal ends the advertisement of every peer it names).                *)
+(* except RemovePeer(p, 0), which is given the stored object (as the churn strategies do).              *)
+(* RemovePeer(p, a) with a # 0 is remove_peer called with ANOTHER Peer object of key p that carries the *)
+(* single address a (what a caller holds that kept the Peer of a received packet), whether or not p is  *)
+(* verified: services are recorded for peers that are not verified too, and removal ends the            *)
+(* advertisement of the peer it names.  adv is a history variable: what was handed to discover_services *)
+(* for a peer since it was last removed; HistoryAgrees ties services_per_peer and the per-service       *)
+(* lookups to it.                                                                                       *)
 (*                                                                                                      *)
 (* The spec describes the REPAIRED code.  Defects switches the deviations of the pinned tree on:        *)
 (*   "rba"     remove_by_address leaves verified_by_public_key_bin untouched                            *)
@@ -17,8 +20,8 @@
 (*   "walk"    get_walkable_addresses(service) adds the introduction service to services_per_peer       *)
 (*   "svcjoin" a peer whose services are known BEFORE it becomes verified is not entered in / refreshed *)
 (*             in reverse_service_lookup when it becomes verified                                       *)
-(*   "rmunver" remove_peer cleans the by-key index and services_per_peer only when the peer it is given  *)
-(*             is verified: what a peer advertised before it was removed survives its removal            *)
+(*   "rmunver" remove_peer cleans the by-key index and services_per_peer only when the peer it is given *)
+(*             is verified: what a peer advertised before it was removed survives its removal           *)
 (*                                                                                                      *)
 (* The CALLER's side: discover_services takes `services: Iterable`.  bufs are NB collections of service *)
 (* ids OWNED BY THE CALLER (payload lists, sets, dict keys; IterBufs: one-shot iterators).              *)
@@ -275,11 +278,11 @@ RemoveByAddress(a) ==
   /\ ret' = {}
   /\ UNCHANGED <<ipCache, introCache, svcCache, bufs>>
 
-(* remove_peer(peer): pa = 0: peer is the stored object of the verified peer p; pa # 0: peer is another Peer object of  *)
-(* key p with the single address pa (Peer equality and hash go by the public key: `peer in verified_peers` holds iff  *)
-(* p is verified).  The addresses OF THE OBJECT HANDED IN leave _all_addresses; p leaves the membership and the       *)
-(* by-key index and stops advertising - whether or not it was verified (services_per_peer has entries for peers that  *)
-(* are not verified).                                                                                                  *)
+(* remove_peer(peer).  pa = 0: peer is the stored object of the verified peer p; pa # 0: peer is another *)
+(* Peer object of key p with the single address pa (Peer equality and hash go by the public key, so     *)
+(* `peer in verified_peers` holds iff p is verified).  The addresses OF THE OBJECT HANDED IN leave      *)
+(* _all_addresses; p leaves the membership and the by-key index and stops advertising, whether or not   *)
+(* it was verified (services_per_peer has entries for peers that are not verified).                     *)
 RemovePeer(p, pa) ==
   /\ Did("RemovePeer", p, pa)
   /\ (pa = 0 => p \in verified)
@@ -362,9 +365,10 @@ LookupsAgree     == ByKeyAgrees /\ ByAddressAgrees /\ PeersForAgrees /\ Walkable
 IntroAgrees      == \A p \in Peers : Has(introCache, p) => Get(introCache, p) = AbsIntros(p)   \* NOT demanded (see driver)
 
 (* ------------------------------ advertised = handed over since the last removal -------------------- *)
-(* "advertised services" read off the history of calls alone: what the graph records for a peer (verified or not) is  *)
-(* what was handed to discover_services for it since it was last removed, and the per-service lookups give what THAT  *)
-(* implies - a peer that was removed and added again advertises nothing until it says so again                         *)
+(* "advertised services" read off the history of calls alone: what the graph records for a peer (verified *)
+(* or not) is what was handed to discover_services for it since it was last removed, and the per-service *)
+(* lookups give what THAT implies: a peer that was removed and added again advertises nothing until it  *)
+(* says so again                                                                                        *)
 AbsWalkableWith(sv, s, o) ==
   LET pf == {p \in verified : s \in sv[p]} IN
     {a \in Dom(all) \ UNION {AddrSet(p) : p \in pf} : ~(o /\ all[a].ns) /\ s \in SvcOf(all, sv, a)}
@@ -385,7 +389,9 @@ RemovedIsGone == [][/\ op'[1] = "RemovePeer" => (op'[2] \notin verified' /\ op'[
                     /\ op'[1] = "RemoveByAddress" =>
                           \A p \in Peers : (p \in verified /\ op'[3] \in AddrSet(p)) => (p \notin verified' /\ p \notin byKey')]_vars
 (* ... whatever object names it and whether or not it was verified, and it advertises nothing any more *)
-RemovedIsClean == [][op'[1] = "RemovePeer" => (op'[2] \notin byKey' /\ services'[op'[2]] = {})]_vars
+RemovedIsClean == [][/\ op'[1] = "RemovePeer" => (op'[2] \notin byKey' /\ services'[op'[2]] = {})
+                     /\ op'[1] = "RemoveByAddress" =>
+                           \A p \in Peers : (p \in verified /\ op'[3] \in AddrSet(p)) => services'[p] = {}]_vars
 (* ... and can be added again: add_verified_peer of a non-blacklisted identity at a non-blacklisted address verifies it *)
 ReAddWorks    == [][(op'[1] = "AddVerified" /\ op'[2] \notin BlackMid /\ op'[3] \notin BlackAddr) => op'[2] \in verified']_vars
 
